@@ -353,9 +353,21 @@ fn run_case(c: &Case, rep: &mut Report) {
         // ... and the closure LOOKS AT THE BUS (the application watches the traffic, or drives another sign, while its pages
         // are being pulled): a lazy page list runs between the controller's bus calls, never inside one
         let peeks = std::cell::Cell::new(0usize);
+        // ... and twice per run the page source is SLOW: it takes 2.6 s to come up with its second page (pages rendered on
+        // demand, fetched over a network). The controller has no business with how long the caller's iterator takes.
+        static SLOW_SOURCES: std::sync::atomic::AtomicUsize = std::sync::atomic::AtomicUsize::new(0);
+        let slow = pages.len() >= 2 && c.fail_attempts == 0 && SLOW_SOURCES.fetch_add(1, std::sync::atomic::Ordering::Relaxed) < 2;
+        if slow {
+            rep.count("page_sources_that_take_seconds_between_pages");
+        }
+        let pulls = std::cell::Cell::new(0usize);
         let side_sign = flipdot::Sign::new(Rc::new(RefCell::new(VirtualSignBus::new(vec![VirtualSign::new(flipdot::Address(0x0055), flipdot::PageFlipStyle::Manual)]))), flipdot::Address(0x0055), TYPES[5].ty);
         let r = crate::util::catch(std::panic::AssertUnwindSafe(|| {
             sign.send_pages(pages.iter().filter(|p| {
+                pulls.set(pulls.get() + 1);
+                if slow && pulls.get() == 2 {
+                    std::thread::sleep(std::time::Duration::from_millis(2600));
+                }
                 peeks.set(peeks.get() + tb.borrow().log.len().min(1) + 1);
                 let _ = tb.borrow_mut().log.len();
                 // ... and every other list also DRIVES ANOTHER SIGN from in there (a whole configuration through another
@@ -644,6 +656,7 @@ pub fn run(ctx: &Ctx) -> Outcome {
         floor("page lists that can be walked only once", report.get("page_lists_that_can_be_walked_only_once") > 500, report.get("page_lists_that_can_be_walked_only_once")),
         floor("page lists whose iterator borrows the bus (shared and mutably) every time a page is pulled", report.get("page_lists_whose_iterator_looks_at_the_bus") > 500, report.get("page_lists_whose_iterator_looks_at_the_bus")),
         floor("page lists of an application that holds on to the bus between pulls (a panic on the borrow is its own fault; a call that returns must have sent a proper transfer)", report.get("page_lists_that_hold_on_to_the_bus_between_pulls") > 200, format!("{} lists, {} calls panicked", report.get("page_lists_that_hold_on_to_the_bus_between_pulls"), report.get("calls_that_panicked_because_the_application_held_the_bus"))),
+        floor("page sources that take 2.6 s to come up with their second page", report.get("page_sources_that_take_seconds_between_pages") == 2, report.get("page_sources_that_take_seconds_between_pages")),
         floor("calls that met a bus failing once, somewhere in the call", report.get("calls_that_met_a_one_shot_bus_error") > 500, report.get("calls_that_met_a_one_shot_bus_error")),
         floor("page lists handed over as adaptor iterators", report.get("page_lists_passed_as_adaptor_iterators") > 1000, report.get("page_lists_passed_as_adaptor_iterators")),
         floor("multi-page transfers", report.get("multi_page_transfers") > 0, report.get("multi_page_transfers")),
